@@ -1,6 +1,6 @@
 (* Entry points of the correspondence check for C11. *)
 Require Import List NArith Bool.
-Require Import KV.Rsp11.Model KV.Rsp11.Spec.
+Require Import KV.Rsp11.Model KV.Rsp11.Spec KV.Rsp11.Routing.
 Import ListNotations.
 Local Open Scope N_scope.
 
@@ -46,3 +46,8 @@ Definition spo_default : list pat := [(V 8, V 7, V 6)].
 Definition mk_cfg (decls : list N) (named : list (N * list pat)) (sp : option (list pat)) (doc : list triple)
                   (p : policy) (o : sop) : cfg :=
   add_static doc (mkCfg (pair_blocks spo_default decls named) sp [] p o).
+
+(* stream routing as the model computes it (Routing.routes: normalize_stream_iri on code points): for every declared
+   stream the spellings (of the events of a case) that reach its window *)
+Definition route_table (decls : list str) (spellings : list str) : list (list bool) :=
+  map (fun d => map (routes d) spellings) decls.
